@@ -8,7 +8,7 @@ from .. import world as W
 from . import _ws
 
 ID = 'C12'
-TIERS = {'quick': {'seeds': 2500, 'seconds': 40, 'determinism': 32},
+TIERS = {'quick': {'seeds': 6000, 'seconds': 75, 'determinism': 32},
          'thorough': {'seconds': 900, 'determinism': 256, 'minimise_s': 120}}
 RULE = ('seeded worlds with every outcome kind (several events per test, failing subtests, '
         'unexpected successes, skips, layer setUp/tearDown failures, import failures), -v 0..3, '
@@ -31,6 +31,9 @@ def comparable(spec):
     # layer hooks run once per process that needs the layer, so their failures are counted
     # per process: only plans without layer-hook failures have mode-independent totals
     for e in spec['plan']:
+        if e.get('where') in ('child', 'parent') and e['a'] == 'raise' and \
+                e.get('exc') != 'NotImplementedError':
+            return False      # a fault that exists in one kind of process only
         if e['site'].startswith('layer.') and e.get('exc') != 'NotImplementedError':
             return False
         if e['site'].startswith('layer.') and e.get('occ') is not None:
